@@ -10,7 +10,7 @@
     burst of at most 32 bits in this numbering
     ([C13_four_byte_window_detected]). *)
 From Coq Require Import List NArith ZArith Bool Arith Lia.
-From PQ Require Import Crc.Model Crc.Proofs.
+From PQ Require Import Crc.Model Crc.Proofs Crc.Consumers Crc.ConsumersProofs.
 Import ListNotations.
 Open Scope N_scope.
 
@@ -164,6 +164,65 @@ Example C13_pinned_column_reader_later_row_group :
   /\ column_path_check loader_check_pinned false true (ColSeek RgAfter) false DataPageV2 DictPage = Some CrcVerified
   /\ column_path_check loader_check false true (ColSeek RgAfter) true DataPageV2 DictPage = Some CrcVerified
   /\ column_path_check loader_check false true (ColSeek RgBefore) true DataPageV2 DataPageV2 = None.
+Proof. vm_compute. repeat split. Qed.
+
+(** Consumers.  The routines that read pages or rows on behalf of the caller
+    (CopyPages, CopyRows, CopyValues, the re-encoding and the row path of
+    Writer.WriteRowGroup, ReadRowsFrom, Reader.Read in a loop, Read...) are
+    instances of the loop [consume]: over a source whose altered item is
+    fetched by a checking loader the loop ends with the error, after handing
+    on exactly the intact items in front of it; it never ends with success. *)
+Theorem C13_consumer_loop_reports : forall before after c,
+  checkb c = true -> consume (source before after c) = Reported before false.
+Proof. exact consume_reports_checked. Qed.
+Print Assumptions C13_consumer_loop_reports.
+
+(** Every kind of consumer comes to report an alteration through a loader
+    that checks: the consuming call itself when it decodes the pages, the
+    reader of its output when it splices the stored bytes (the verbatim path
+    of Writer.WriteRowGroup), and it does meet the page and the dictionary
+    page of a column it reads. *)
+Theorem C13_consumers_verify : forall enc dict kind k target,
+  match consumer_check loader_check enc dict kind k target with
+  | ByCall c | ByOutput c => checkb c = true
+  | Untouched => True
+  end.
+Proof. exact consumer_check_verified. Qed.
+Print Assumptions C13_consumers_verify.
+
+Theorem C13_consumer_meets_the_page : forall enc dict kind k,
+  k <> DictPage -> kind <> ProjectedAway ->
+  consumer_check loader_check enc dict kind k k <> Untouched /\
+  (dict = true -> consumer_check loader_check enc dict kind k DictPage <> Untouched).
+Proof. exact consumer_meets_the_page. Qed.
+Print Assumptions C13_consumer_meets_the_page.
+
+(** The verbatim copy carries the stored checksum with the body: the reader of
+    the copy rejects the page under the hypotheses of
+    [C13_corrupted_body_rejected]. *)
+Theorem C13_verbatim_copy_keeps_checksum : forall body e : list N,
+  length e = length body -> is_bytes e -> nonzero e -> burst_within 32 e ->
+  crc32 body <> 0 ->
+  let p := splice {| sp_crc := crc32 body; sp_body := xor_bytes body e |} in
+  read_page_accepts (sp_crc p) (sp_body p) = false.
+Proof. exact splice_keeps_rejection. Qed.
+Print Assumptions C13_verbatim_copy_keeps_checksum.
+
+Theorem C13_write_row_group_decodes_unless_verbatim : forall same enc transparent fits,
+  wrg_kind (write_row_group_path same enc transparent fits) = Verbatim <->
+  (same = true /\ enc = false /\ transparent = true /\ fits = true).
+Proof. exact wrg_decodes_unless_verbatim. Qed.
+Print Assumptions C13_write_row_group_decodes_unless_verbatim.
+
+(** A loop that takes a failed read for the end of its source (what a
+    consumer must not do) is refuted by the same source: with an unchecked
+    loader the altered page is handed on and the loop reports success. *)
+Example C13_unchecked_source_is_delivered :
+  consume (source 3 2 Unverified) = Done 6 true /\
+  consume (source 3 2 CrcVerified) = Reported 3 false /\
+  consumer_check loader_check_pinned false true Decoding DataPageV2 DictPage = ByCall CrcVerified /\
+  consumer_check loader_check false true Verbatim DataPageV1 DataPageV1 = ByOutput CrcVerified /\
+  consumer_check loader_check true true Decoding DataPageV1 DictPage = ByCall AeadVerified.
 Proof. vm_compute. repeat split. Qed.
 
 (** Non-vacuity: a concrete message and a 32-bit burst that starts in the
